@@ -24,7 +24,8 @@ class Unsupported(Exception):
 MAIN = 0
 END = 0
 FIELDS_T = dict(lock="int", go="bool", halting="bool", open="bool", active="bool", started="bool", done="bool",
-                it="int", written="int", created="bool", closed="int", paused_by_user="bool")
+                it="int", written="int", created="bool", closed="int", paused_by_user="bool", crashed="bool")
+NOFAULT = 500          # value of fault<p> meaning "the backend never fails for this player"
 FIELDS_M = dict(finished="bool", lock="int", halting="int", nthreads="int", terminated="int", raised="int",
                 order_bad="bool", assert_bad="bool", closed_ret="bool", in_close="bool")
 
@@ -78,8 +79,11 @@ def _compose(A, B):
 
 
 class Model:
-  def __init__(self, path, P=1, LMAX=2, H=1, ops=("pause", "play", "stop"), reduce=True):
-    self.path, self.P, self.LMAX, self.H, self.ops = path, P, LMAX, H, list(ops)
+  def __init__(self, path, P=1, LMAX=2, H=1, ops=("pause", "play", "stop"), reduce=True, faults=False):
+    """faults=True: the backend may fail - for each player the write of one solver-chosen chunk may raise (fault<p> is the
+    index of that chunk, or NOFAULT); the exception propagates through `with` / `try-finally` like in Python and, when
+    nothing catches it, ends the player thread."""
+    self.path, self.P, self.LMAX, self.H, self.ops, self.faults = path, P, LMAX, H, list(ops), faults
     tree = ast.parse(open(path).read())
     self.CLS = {c.name: {f.name: f for f in c.body if isinstance(f, ast.FunctionDef)}
                 for c in tree.body if isinstance(c, ast.ClassDef)}
@@ -90,6 +94,7 @@ class Model:
     self._check_init()
     self.WAIT = z3.Bool("wait")
     self.L = [IC("L%d" % p) for p in range(P)]
+    self.FAULT = [IC("fault%d" % p) for p in range(P)]
     self.CHOICE = [IC("choice%d" % h) for h in range(H)]
     self.TARGET = [IC("target%d" % h) for h in range(H)]
     self.progs, self.entries = {}, {}
@@ -219,7 +224,8 @@ class Model:
         prog.add(r, TRUE, lambda s, recv=recv, field=field: self._upd(s, recv, field, IV(-1)), lambda s, k=k: IV(k),
                  ln, "release(on exit) %s.%s" % (recv[0], field), kind="local" if mainonly else "rel")
         return r
-      body = self.compile_block(prog, st.body, env, rel, wrap(k_break), wrap(k_ret))
+      benv = dict(env, exc=wrap(env.get("exc"))) if env.get("exc") is not None else env      # an exception releases the lock
+      body = self.compile_block(prog, st.body, benv, rel, wrap(k_break), wrap(k_ret))
       prog.add(lab, lambda s, recv=recv, field=field: self.fget(s, recv, field) == -1,
                lambda s, recv=recv, field=field: self._upd(s, recv, field, IV(me)), lambda s: IV(body),
                ln, "acquire %s.%s" % (recv[0], field), kind="acq")
@@ -275,6 +281,12 @@ class Model:
     if isinstance(st, ast.Raise):
       prog.add(lab, TRUE, lambda s: {"M.raised": s["M.raised"] + 1}, lambda s: IV(k_ret), ln, "raise", kind="local")
       return lab
+    if isinstance(st, ast.Try) and st.finalbody and not st.handlers and not st.orelse:
+      # try/finally: the final block runs on every way out of the body (fall through, break, return, exception) and
+      # then continues where that way out was heading
+      fin = lambda k: None if k is None else self.compile_block(prog, st.finalbody, env, k, k_break, k_ret)
+      benv = dict(env, exc=fin(env.get("exc"))) if env.get("exc") is not None else env
+      return self.compile_block(prog, st.body, benv, fin(k_next), fin(k_break), fin(k_ret))
     if isinstance(st, ast.Try):
       if not (len(st.body) == 1 and src(st.body[0]) == "thread = self._threads[0]" and len(st.handlers) == 1 and
               src(st.handlers[0].type) == "IndexError" and not st.orelse and not st.finalbody):
@@ -303,10 +315,18 @@ class Model:
     if self_[0] == "T":
       if t == "st = self.stream._stream": return k_next
       if t.startswith("self.write_stream(st, chunk"):
-        return simple(lambda s: dict(_upd(s, self_, "written", fget(s, self_, "written") + 1),
-                                     **{"M.order_bad": z3.Or(s["M.order_bad"],
-                                                            fget(s, self_, "written") != fget(s, self_, "it") - 1,
-                                                            z3.Not(fget(s, self_, "open")))}), what="write_stream", kind="local")
+        p = self_[1]
+        k_exc = env.get("exc")
+        fails = (lambda s: fget(s, self_, "written") == self.FAULT[p]) if (self.faults and k_exc is not None) \
+                else (lambda s: z3.BoolVal(False))
+        prog.add(lab, TRUE,
+                 lambda s: dict(_upd(s, self_, "written", z3.If(fails(s), fget(s, self_, "written"), fget(s, self_, "written") + 1)),
+                                **{"M.order_bad": z3.Or(s["M.order_bad"],
+                                                       fget(s, self_, "written") != fget(s, self_, "it") - 1,
+                                                       z3.Not(fget(s, self_, "open")))}),
+                 (lambda s: z3.If(fails(s), IV(k_exc), IV(k_next))) if (self.faults and k_exc is not None) else nxt,
+                 ln, "write_stream", kind="local")
+        return lab
       if t == "self.stream.stop_stream()": return simple(lambda s: _upd(s, self_, "active", z3.BoolVal(False)), kind="local")
       if t == "self.stream.start_stream()": return simple(lambda s: _upd(s, self_, "active", z3.BoolVal(True)), kind="local")
       if t == "self.stream.close()":
@@ -377,7 +397,10 @@ class Model:
     prog = Prog(p + 1)
     done = prog.new()
     prog.add(done, TRUE, lambda s: {"T%d.done" % p: z3.BoolVal(True)}, lambda s: IV(END), None, "thread exits")
-    entry = self.compile_block(prog, self.CLS["AudioThread"]["run"].body, {"self": ("T", p)}, done, None, done)
+    dead = prog.new()       # an exception nobody caught ends the thread (threading prints the traceback)
+    prog.add(dead, TRUE, lambda s: {"T%d.done" % p: z3.BoolVal(True), "T%d.crashed" % p: z3.BoolVal(True)}, lambda s: IV(END),
+             None, "thread dies with the exception")
+    entry = self.compile_block(prog, self.CLS["AudioThread"]["run"].body, {"self": ("T", p), "exc": dead}, done, None, done)
     return prog, entry
 
   def main_prog(self):
@@ -477,7 +500,9 @@ class Model:
             z3.Not(s["T%d.halting" % p]), z3.Not(s["T%d.open" % p]), z3.Not(s["T%d.active" % p]),
             z3.Not(s["T%d.started" % p]), z3.Not(s["T%d.done" % p]), s["T%d.it" % p] == 0,
             s["T%d.written" % p] == 0, z3.Not(s["T%d.created" % p]), s["T%d.closed" % p] == 0,
-            z3.Not(s["T%d.paused_by_user" % p]), self.L[p] >= 0, self.L[p] <= self.LMAX,
+            z3.Not(s["T%d.paused_by_user" % p]), z3.Not(s["T%d.crashed" % p]), self.L[p] >= 0, self.L[p] <= self.LMAX,
+            (z3.Or(self.FAULT[p] == NOFAULT, z3.And(self.FAULT[p] >= 0, self.FAULT[p] < self.LMAX)) if self.faults
+             else self.FAULT[p] == NOFAULT),
             s["M.threads%d" % p] == -1]
     c += [z3.Not(s["M.finished"]), s["M.lock"] == -1, s["M.halting"] == -1, s["M.nthreads"] == 0,
           s["M.terminated"] == 0, s["M.raised"] == 0, z3.Not(s["M.order_bad"]), z3.Not(s["M.assert_bad"]),
@@ -537,7 +562,7 @@ class Model:
           touched.add(k); touched |= {x.split("@")[0] for x in names(v)}
         touched |= {x.split("@")[0] for x in names(g(dummy))} | {x.split("@")[0] for x in names(n(dummy))}
         touched = {x for x in touched if "@" not in x or True}
-        allowed = lambda x: x.startswith("T%d." % p) or x == "pc%d" % th or re.match(r"^(L\d+|wait)$", x)
+        allowed = lambda x: x.startswith("T%d." % p) or x == "pc%d" % th or re.match(r"^(L\d+|fault\d+|wait)$", x)
         if all(allowed(x) for x in touched): ok.add(lab)
       priv[th] = ok
     return priv
@@ -600,7 +625,9 @@ class Model:
       return z3.And(s["M.closed_ret"], bad)
     if name == "lost":
       s = states[-1]
-      return z3.Or(*[z3.And(s["T%d.done" % p], z3.Not(s["T%d.halting" % p]), s["T%d.written" % p] != self.L[p])
+      # a player whose backend failed delivered the chunks before the failure (order is the safety clause)
+      return z3.Or(*[z3.And(s["T%d.done" % p], z3.Not(s["T%d.halting" % p]), z3.Not(s["T%d.crashed" % p]),
+                            self.FAULT[p] == NOFAULT, s["T%d.written" % p] != self.L[p])
                      for p in range(P)])
     dead = z3.Or(*[z3.And(z3.Not(anyens[t]), z3.Not(states[t]["M.closed_ret"])) for t in range(len(anyens))])
     if name == "deadlock_nowait":
@@ -624,6 +651,7 @@ class Model:
       ev = lambda x: m.eval(x, model_completion=True)
       out["wait"] = z3.is_true(ev(self.WAIT))
       out["L"] = [ev(x).as_long() for x in self.L]
+      out["faults"] = [(ev(x).as_long() if ev(x).as_long() != NOFAULT else None) for x in self.FAULT]
       out["choices"] = [ev(x).as_long() for x in self.CHOICE]
       out["targets"] = [ev(x).as_long() for x in self.TARGET]
       sc = [ev(x).as_signed_long() for x in sched]
@@ -658,25 +686,31 @@ class Model:
       lab = ev(states[t]["pc%d" % th]).as_long()
       steps.append([th, lab, self._fired(ev, states[t], th, lab)])
     return {"result": "sat", "wait": z3.is_true(ev(self.WAIT)), "L": [ev(x).as_long() for x in self.L],
+            "faults": [(ev(x).as_long() if ev(x).as_long() != NOFAULT else None) for x in self.FAULT],
             "choices": [ev(x).as_long() for x in self.CHOICE], "targets": [ev(x).as_long() for x in self.TARGET],
             "steps": steps,
-            "events": self.events_of(steps)}
+            "events": self.events_of(steps, [(ev(x).as_long() if ev(x).as_long() != NOFAULT else None) for x in self.FAULT])}
 
   def _fired(self, ev, state, th, lab):
     """(line, what) of every statement a (possibly merged) node stands for"""
     return [list(x) for x in self.progs[th].info.get(lab, [(None, "?")])]
 
   @staticmethod
-  def events_of(steps):
-    """Backend-visible event trace of a run of the model."""
+  def events_of(steps, faults=None):
+    """Backend-visible event trace of a run of the model (a write the backend refuses is not an event)."""
     ev = []
     flat = []
+    nwrites = {}
     for st in steps:
       if st is None: continue
       th, lab, stmts = st
       for line, what in stmts: flat.append((th, what))
     for th, what in flat:
-      if what == "write_stream": ev.append(["write", th - 1])
+      if what == "write_stream":
+        n = nwrites.get(th, 0)
+        if faults and th - 1 < len(faults) and faults[th - 1] is not None and faults[th - 1] == n: continue
+        nwrites[th] = n + 1
+        ev.append(["write", th - 1])
       elif what == "self.stream.stop_stream()": ev.append(["stop_stream", th - 1])
       elif what == "self.stream.start_stream()": ev.append(["start_stream", th - 1])
       elif what == "self.stream.close()": ev.append(["close", th - 1])
